@@ -92,7 +92,9 @@ func TestProp_Generate(t *testing.T) {
 		if _, err := w.Authorize(actors["o"]); err != nil {
 			t.Fatalf("authorize o: %v", err)
 		}
-		if err := w.EditNode(actors["o"].KeyID, func(ni *types.NodeInformation) { ni.NodeId = "N2" }); err != nil {
+		// the other node's ID is unrelated to N1 or differs from it only in letter case
+		oID := rapid.SampledFrom([]string{"N2", "N2", "n1"}).Draw(t, "otherNodeId")
+		if err := w.EditNode(actors["o"].KeyID, func(ni *types.NodeInformation) { ni.NodeId = oID }); err != nil {
 			t.Fatalf("edit: %v", err)
 		}
 		registered := map[string]bool{"o": true}
@@ -165,10 +167,10 @@ func TestProp_Generate(t *testing.T) {
 				ids = append(ids, actors[n].KeyID)
 			}
 			w.NodeID.Order["N1"] = ids
-			w.NodeID.Order["N2"] = []string{actors["o"].KeyID}
+			w.NodeID.Order[oID] = []string{actors["o"].KeyID}
 		}
 
-		d.ReqNodeID = rapid.SampledFrom([]string{"", "N1", "N1", "N2", "unknown"}).Draw(t, "reqNodeId")
+		d.ReqNodeID = rapid.SampledFrom([]string{"", "N1", "N1", oID, "unknown"}).Draw(t, "reqNodeId")
 		d.Claimed = rapid.SampledFrom(names).Draw(t, "claimed")
 		signers := append(append([]string{}, names...), "none", "other-data", "garbage")
 		d.NonceSigner = rapid.SampledFrom(signers).Draw(t, "nonceSigner")
@@ -239,7 +241,7 @@ func TestProp_Generate(t *testing.T) {
 			switch d.ReqNodeID {
 			case "N1":
 				lookup = order
-			case "N2":
+			case oID:
 				lookup = []string{"o"}
 			}
 			if len(lookup) == 0 {
